@@ -30,7 +30,7 @@ func builtinArrayToString(call FunctionCall) Value {
 	join := thisObject.get("join")
 	if join.isCallable() {
 		join := join.object()
-		return join.call(call.This, call.ArgumentList, false, nativeFrame)
+		return join.call(call.This, nil, false, nativeFrame)
 	}
 	return builtinObjectToString(call)
 }
